@@ -94,7 +94,19 @@ fn make_seed(i: u64, rng: &mut Rng) -> Option<Seed> {
     if i % 8 == 0 && shape.aux.is_none() {
         shape.aux = Some(AuxShape { cols: 1, rands: 1, lagrange: i % 16 == 0 });
     }
-    shape.meta = vec![];
+    // trace metadata of boundary lengths (element-chunk boundaries of the three fields), with and
+    // without trailing zero bytes
+    shape.meta = if i % 3 == 1 {
+        let lens = [1usize, 2, 3, 6, 7, 8, 9, 14, 15, 16, 17, 22, 29, 30, 31, 32, 33, 45, 50, 64, 100, 226, 255];
+        let l = lens[rng.usize(lens.len())];
+        let mut m = rng.bytes(l);
+        if rng.chance(1, 3) {
+            m[l - 1] = 0;
+        }
+        m
+    } else {
+        vec![]
+    };
     let shape = Arc::new(shape);
     // small proofs: few queries; FRI layers 0..max by varying folding / remainder
     let mut options = random_options(rng, &shape, ext, 8);
@@ -174,7 +186,26 @@ fn remainder_plus_vanishing<B: Fld, E: FieldElement<BaseField = B>>(seed: &Seed,
     Some(out)
 }
 
+fn hex(b: &[u8]) -> String {
+    b.iter().map(|x| format!("{x:02x}")).collect()
+}
+
+thread_local! {
+    static SEED_INDEX: std::cell::Cell<u64> = const { std::cell::Cell::new(0) };
+}
+
+/// VERIF_ONLY_CLASS=<prefix> restricts judging to mutants of that class (replay aid; generation is unchanged)
+fn only_class() -> &'static Option<String> {
+    static F: std::sync::OnceLock<Option<String>> = std::sync::OnceLock::new();
+    F.get_or_init(|| std::env::var("VERIF_ONLY_CLASS").ok())
+}
+
 fn judge(st: &mut State, seed: &Seed, canon_orig: &[u8], m: &Mutant) {
+    if let Some(f) = only_class() {
+        if !m.class.starts_with(f.as_str()) {
+            return;
+        }
+    }
     let (fd, hs) = (seed.inst.fd, seed.inst.hs);
     st.evals += 1;
     let parsed = match wfv::catch(|| Proof::from_bytes(&m.bytes)) {
@@ -194,7 +225,21 @@ fn judge(st: &mut State, seed: &Seed, canon_orig: &[u8], m: &Mutant) {
     }
     let r = stark::verify_proof(fd, hs, &seed.inst.shape, &seed.inst.values, parsed.clone(), &AcceptableOptions::MinConjecturedSecurity(0), false);
     match r {
-        Ok(Err(_)) => st.count("outcome.rejected"),
+        Ok(Err(e)) => {
+            if std::env::var("VERIF_C03_DEBUG").is_ok() {
+                eprintln!("rejected [{}]: {e}", m.class);
+                for (name, p) in [("original", seed.proof.clone()), ("mutant", parsed.clone())] {
+                    let _ = coin::take_log();
+                    coin::set_role('V');
+                    let _ = stark::verify_proof(fd, hs, &seed.inst.shape, &seed.inst.values, p.clone(), &AcceptableOptions::MinConjecturedSecurity(0), true);
+                    eprintln!("== {name}: meta {:?}", p.context.trace_info().meta());
+                    for e in coin::take_log().iter().take(1) {
+                        eprintln!("   {:?}", e.ev);
+                    }
+                }
+            }
+            st.count("outcome.rejected")
+        },
         Err(_) => st.count("outcome.panic_while_verifying(see C06)"),
         Ok(Ok(())) => {
             // outside the claim: other encodings of the same digests, layout-only partition count
@@ -209,14 +254,35 @@ fn judge(st: &mut State, seed: &Seed, canon_orig: &[u8], m: &Mutant) {
                 st.count("outcome.accepted_partition_count_edit(outside claim)");
                 return;
             }
+            if std::env::var("VERIF_C03_DEBUG").is_ok() {
+                eprintln!("cols: {:?}", seed.inst.cols.iter().map(|c| c.iter().take(6).collect::<Vec<_>>()).collect::<Vec<_>>());
+                eprintln!("values: {:?}", seed.inst.values);
+                eprintln!("proof: {:?}", seed.proof);
+                for (name, p) in [("original", seed.proof.clone()), ("mutant", parsed.clone())] {
+                    let _ = coin::take_log();
+                    coin::set_role('V');
+                    let r = stark::verify_proof(fd, hs, &seed.inst.shape, &seed.inst.values, p, &AcceptableOptions::MinConjecturedSecurity(0), true);
+                    eprintln!("== {name}: {r:?}");
+                    for e in coin::take_log() {
+                        eprintln!("   {:?}", e.ev);
+                    }
+                }
+            }
+            // every trace column constant and no randomized auxiliary segment: every committed vector
+            // (trace LDE, constraint evaluations = 0, DEEP composition = 0, FRI layers = 0) is constant,
+            // all Merkle leaves are equal and nothing in the proof depends on the challenges any more
+            let constant = seed.inst.shape.aux.is_none() && seed.inst.cols.iter().all(|c| c.iter().all(|x| *x == c[0]));
+            let sig = if constant { "modified-proof-accepted:every-trace-column-constant".to_string() } else { format!("modified-proof-accepted:{}", m.class) };
             st.violation(
-                format!("modified-proof-accepted:{}", m.class),
+                sig,
                 J::obj(vec![
                     ("field", J::s(format!("{fd:?}"))),
                     ("hasher", J::s(format!("{hs:?}"))),
                     ("options", J::s(format!("{:?}", seed.inst.options))),
                     ("shape", seed.inst.shape.json()),
                     ("mutation", J::s(&m.class)),
+                    ("seed_index", J::i(SEED_INDEX.with(|c| c.get()) as usize)),
+                    ("mutant_hex", J::s(if m.bytes.len() <= 6000 { hex(&m.bytes) } else { String::new() })),
                     ("proof_len", J::i(seed.bytes.len())),
                     ("mutant_len", J::i(m.bytes.len())),
                     ("first_difference_at", J::i(seed.bytes.iter().zip(&m.bytes).position(|(a, b)| a != b).unwrap_or(seed.bytes.len().min(m.bytes.len())))),
@@ -227,6 +293,12 @@ fn judge(st: &mut State, seed: &Seed, canon_orig: &[u8], m: &Mutant) {
 }
 
 fn case(i: u64, rng: &mut Rng, st: &mut State, quick: bool) {
+    SEED_INDEX.with(|c| c.set(i));
+    if let Ok(only) = std::env::var("VERIF_ONLY_INDEX") {
+        if only.parse::<u64>().ok() != Some(i) {
+            return;
+        }
+    }
     let Some(seed) = make_seed(i, rng) else {
         st.count("skipped.seed_not_accepted(C01)");
         return;
@@ -323,6 +395,9 @@ fn case(i: u64, rng: &mut Rng, st: &mut State, quick: bool) {
     if seed.map.num_segments == 2 {
         st.count("seeds.multi_segment");
     }
+    if !seed.inst.shape.meta.is_empty() {
+        st.count("seeds.with_trace_metadata");
+    }
     st.add("seed_proof_bytes", n as u64);
     st.distinct.insert(wfv::fnv(&seed.bytes));
     st.sample("seed", || J::obj(vec![("field", J::s(format!("{:?}", seed.inst.fd))), ("hasher", J::s(format!("{hs:?}"))), ("options", J::s(format!("{:?}", seed.inst.options))), ("shape", seed.inst.shape.json()), ("proof_bytes", J::i(n)), ("layout_fields", J::i(seed.map.fields.len()))]));
@@ -335,7 +410,7 @@ fn main() {
     let n = run.size(48, 2_400);
     run.par("seeds", n, |i, rng, st| case(i, rng, st, quick));
     // distinct_nontrivial counts mutants that parsed with different content: approximate by rejected
-    let mut require = vec![("outcome.rejected".to_string(), 10_000), ("outcome.parse_failed".to_string(), 1000), ("mutants.bitflip".to_string(), 10_000), ("mutants.semantic".to_string(), 50), ("mutants.remainder_plus_vanishing_polynomial_of_queried_points".to_string(), 3), ("seeds.multi_segment".to_string(), 3), ("seeds.fri_layers_0".to_string(), 1), ("seeds.fri_layers_1".to_string(), 1)];
+    let mut require = vec![("outcome.rejected".to_string(), 10_000), ("outcome.parse_failed".to_string(), 1000), ("mutants.bitflip".to_string(), 10_000), ("mutants.semantic".to_string(), 50), ("mutants.remainder_plus_vanishing_polynomial_of_queried_points".to_string(), 3), ("seeds.multi_segment".to_string(), 3), ("seeds.with_trace_metadata".to_string(), 5), ("seeds.fri_layers_0".to_string(), 1), ("seeds.fri_layers_1".to_string(), 1)];
     for c in ["scalar", "length", "blob-grow1", "blob-shrink1", "merkle-extra-node-in-vector", "trailing-garbage", "truncated"] {
         require.push((format!("mutants.{c}"), 20));
     }
@@ -351,7 +426,7 @@ fn main() {
         run.merge(s);
     }
     run.finish(Finish {
-        rule: "seed proofs of small C01-family configurations (n = 8..32, 2..6 queries, 0..max FRI layers, single and multi segment, Lagrange kernel, all 12 field x hasher combinations, three extension degrees); mutants: every single-bit flip of the serialized proof (exhaustive in thorough; in quick all bits for proofs <= 1500 bytes and for the first 200 bytes, one random bit per byte beyond), every scalar and length field located by the wire-layout parser set to {0,1,max-1,max,+-1,random,...}, every blob grown / shrunk by one byte and by one digest with all enclosing lengths fixed up, emptied, bit-flipped; FRI layers removed / duplicated / swapped; query records swapped; one extra / one fewer digest inside each Merkle node vector; trailing garbage; truncation at every offset; semantic edits through the public fields (nonce, unique-query count, gkr_proof toggled/replaced, query sets swapped); FRI remainder replaced by remainder + c*prod(x - x_q) over the final query points (positions read from the verifier's coin). Oracle: parse failure, or decoded content equal to the original (or equal up to digest re-encoding / partition count: outside the claim), or rejected; acceptance otherwise is a violation. distinct_nontrivial = number of mutants that parsed to different content and were rejected + seeds".into(),
+        rule: "seed proofs of small C01-family configurations (n = 8..32, 2..6 queries, 0..max FRI layers, single and multi segment, Lagrange kernel, trace metadata of 0..255 bytes at the element-chunk boundaries, all 12 field x hasher combinations, three extension degrees); mutants: every single-bit flip of the serialized proof (exhaustive in thorough; in quick all bits for proofs <= 1500 bytes and for the first 200 bytes, one random bit per byte beyond), every scalar and length field located by the wire-layout parser set to {0,1,max-1,max,+-1,random,...}, every blob grown / shrunk by one byte and by one digest with all enclosing lengths fixed up, emptied, bit-flipped; FRI layers removed / duplicated / swapped; query records swapped; one extra / one fewer digest inside each Merkle node vector; trailing garbage; truncation at every offset; semantic edits through the public fields (nonce, unique-query count, gkr_proof toggled/replaced, query sets swapped); FRI remainder replaced by remainder + c*prod(x - x_q) over the final query points (positions read from the verifier's coin). Oracle: parse failure, or decoded content equal to the original (or equal up to digest re-encoding / partition count: outside the claim), or rejected; acceptance otherwise is a violation. distinct_nontrivial = number of mutants that parsed to different content and were rejected + seeds".into(),
         assumptions: vec!["all bindings are hash based: accidental acceptance needs a collision".into(), "panics are attributed to C06 and only counted here".into()],
         exhaustive: !quick,
         require,
